@@ -24,6 +24,7 @@ let run lines =
   | "aof" -> Model.run_aof lines
   | "spec02" -> Model.run_spec02 lines
   | "snap" -> Model.run_snap lines
+  | "spec12" -> Model.run_spec12 lines
   | m -> failwith ("unknown mode " ^ m)
 
 let flush_script acc =
